@@ -29,10 +29,11 @@ RULE = ("one case = a history of up to 80 operations over 1-3 MersenneTwister "
         "and was followed by further draws; distinct = digest of the history")
 COMPONENTS = {"real": ["pydsol.core.streams.MersenneTwister"],
               "stub": ["random.Random inside the stream (only in the extreme-uniform sub-check)",
-                       "time.time/sleep in the stream module (virtual clock, only while an unseeded stream is constructed)"]}
+                       "time.time/sleep in the stream module (virtual clock, only while an unseeded stream is constructed)",
+                       "threading.Thread.start / thread scheduling (baton scheduler, two-thread layer only)"]}
 ASSUMPTIONS = ["sizes are swarm-varied: about 1 % of the histories have 700 or 2500 operations (beyond one 624-word block of the generator)",
                "integer ranges wider than the largest float are not generated (int->float conversion raises OverflowError, which is not an out-of-range draw)",
-               "weak fit: no scheduler/clock; history + metamorphic relations"]
+               "weak fit for the single-caller layer (history + metamorphic relations, no scheduler); the two-thread layer (6 % of the cases) gives each thread its own stream - sharing one stream object between threads is not judged"]
 
 SEEDS = [0, 1, 2, 10, 101, -1, -7, 2 ** 31, 2 ** 32 + 5, 2 ** 63, 2 ** 200, 12345678901234567890]
 
